@@ -16,6 +16,7 @@
 package main
 
 import (
+	"encoding/json"
 	"fmt"
 	"os"
 	"sort"
@@ -45,6 +46,8 @@ type txset struct {
 	T3              *types.Transaction // T with a second signature, by an outsider, appended to its list
 	B2              *types.Transaction // box(T) whose own expiration is t0+100
 	V               *types.Transaction // a payload expiring early (t0+10)
+	M, M2, M3       *types.Transaction // one payload of the multi-signature account ms (U0:50 + U1:50): signed [U0,U1], [U1,U0], [U0,U1,outsider]
+	BB              *types.Transaction // a box that carries T twice
 }
 
 func mkTxs() txset {
@@ -61,8 +64,16 @@ func mkTxs() txset {
 	// a box that itself expires early (t0+100) around the long-lived T: at the instant -1 the box is
 	// inside its own window while its sub-transaction is one second too early
 	s.B2 = node.Box(node.User(3), uint64(t0+100), s.T)
+	// one signed payload of a multi-signature account under three signature lists (three tx hashes)
+	um := node.Unsigned(node.TxSpec{Type: params.OrdinaryTx, From: msKey(), To: &node.User(1).Addr, Amount: node.Lemo(4), Exp: exp})
+	s.M = node.SignWith(node.SignWith(um, node.User(0).Priv), node.User(1).Priv)
+	s.M2 = node.SignWith(node.SignWith(um, node.User(1).Priv), node.User(0).Priv)
+	s.M3 = node.SignWith(s.M, node.K("outsider").Priv)
+	s.BB = node.Box(node.User(3), exp, s.T, s.T)
 	return s
 }
+
+func msKey() *node.Key { return node.K("c04-multisig") }
 
 func reencode(tx *types.Transaction) *types.Transaction {
 	un := types.NewTransaction(tx.From(), *tx.To(), tx.Amount(), tx.GasLimit(), tx.GasPrice(), tx.Data(), tx.Type(), tx.ChainID(), tx.Expiration(), tx.ToName(), tx.Message())
@@ -130,6 +141,14 @@ func (s txset) list(name string) types.Transactions {
 		return types.Transactions{s.T, s.T2}
 	case "V":
 		return types.Transactions{s.V}
+	case "M":
+		return types.Transactions{s.M}
+	case "M2":
+		return types.Transactions{s.M2}
+	case "M3":
+		return types.Transactions{s.M3}
+	case "BB":
+		return types.Transactions{s.BB}
 	}
 	panic("bad list " + name)
 }
@@ -218,12 +237,22 @@ func placement(blocks map[common.Hash]*types.Block, leaf *types.Block, id string
 	kinds := map[string]bool{}
 	hashes := map[common.Hash]bool{}
 	sigCounts := map[int]bool{}
+	sigSets := map[string]bool{} // the signature lists seen, as sorted sets
+	note := func(tx *types.Transaction) {
+		l := make([]string, 0)
+		for _, sg := range tx.Sigs() {
+			l = append(l, fmt.Sprintf("%x", sg))
+		}
+		sort.Strings(l)
+		sigSets[strings.Join(l, ",")] = true
+	}
 	for b := leaf; b != nil && b.Height() > 0; b = blocks[b.ParentHash()] {
 		for _, tx := range b.Txs {
 			if payloadID(tx) == id {
 				kinds["bare"] = true
 				hashes[tx.Hash()] = true
 				sigCounts[len(tx.Sigs())] = true
+				note(tx)
 			}
 			if tx.Type() == params.BoxTx {
 				if box, err := types.GetBox(tx.Data()); err == nil {
@@ -232,6 +261,7 @@ func placement(blocks map[common.Hash]*types.Block, leaf *types.Block, id string
 							kinds["boxed"] = true
 							hashes[s.Hash()] = true
 							sigCounts[len(s.Sigs())] = true
+							note(s)
 						}
 					}
 				}
@@ -241,6 +271,10 @@ func placement(blocks map[common.Hash]*types.Block, leaf *types.Block, id string
 	if len(hashes) > 1 {
 		if sigCounts[1] && len(sigCounts) > 1 {
 			kinds["different-tx-hash(signature appended)"] = true
+		} else if len(sigCounts) > 1 {
+			kinds["different-tx-hash(signature appended to a multi-signature list)"] = true
+		} else if len(sigSets) == 1 {
+			kinds["different-tx-hash(signature list permuted)"] = true
 		} else {
 			kinds["different-tx-hash(re-encoded signature)"] = true
 		}
@@ -274,7 +308,7 @@ func (w *world) close() {
 func newWorld(scen string) *world {
 	w := &world{scen: scen, named: map[string]*types.Block{}}
 	switch scen {
-	case "lin", "rst":
+	case "lin", "rst", "ms":
 		w.n = 1
 	default:
 		w.n = 3
@@ -284,7 +318,7 @@ func newWorld(scen string) *world {
 	vclock.SetUnix(int64(t0) + 10*life) // the node's clock: later than every block in the alphabet
 	w.f = node.NewFactory(core.ScratchDir("c04f"), w.n)
 	self := node.K("observer")
-	if scen == "miner" {
+	if scen == "miner" || scen == "msm" {
 		self = node.Deputy(0)
 	}
 	w.o = node.NewNode(core.ScratchDir("c04o"), w.n, self)
@@ -300,6 +334,11 @@ func fund(w *world) {
 	for i := 0; i < 4; i++ {
 		l = append(l, node.Transfer(node.Founder(), node.User(i).Addr, node.Lemo(1000), exp+uint64(i)))
 	}
+	// the multi-signature account: funded, then its signers set (U0:50 + U1:50) by its own key
+	ms := msKey()
+	l = append(l, node.Transfer(node.Founder(), ms.Addr, node.Lemo(1000), exp+10))
+	sg, _ := json.Marshal(map[string]interface{}{"signers": []map[string]interface{}{{"address": node.User(0).Addr, "weight": 50}, {"address": node.User(1).Addr, "weight": 50}}})
+	l = append(l, node.Tx(node.TxSpec{Type: params.ModifySignersTx, From: ms, To: &ms.Addr, Data: sg, Exp: exp + 11}))
 	g := w.named["g"]
 	tm, _ := node.SlotTime(w.f.DM, g, node.Deputy(0), w.n)
 	base := uint32(t0 - 1000)
@@ -433,6 +472,8 @@ var lists = map[string][]string{
 	"rst":   {"-", "T", "B", "U"},
 	"fork":  {"-", "T", "T2", "T3", "B", "U"},
 	"miner": {"T", "U"},
+	"ms":    {"M", "M2", "M3", "BB", "T"},
+	"msm":   {"M", "M2", "M3", "BB"},
 }
 
 // enabled lists the events of the state reached.
@@ -451,6 +492,18 @@ func (w *world) enabled(evs []string, results []string) []string {
 			}
 		}
 		en = append(en, "restart")
+	case "ms":
+		// signature lists of a multi-signature payload and a box carrying one payload twice, offered by blocks
+		head := w.o.BC.CurrentBlock()
+		for _, l := range lists["ms"] {
+			en = append(en, fmt.Sprintf("blk %s i1 on %s by 0", l, w.nameOf(head)))
+		}
+	case "msm":
+		// the same offered to the node's own pool; the node (deputy 0) mines
+		for _, l := range lists["msm"] {
+			en = append(en, "pool "+l)
+		}
+		en = append(en, "mine")
 	case "rst":
 		// restart-centred: a small block menu (empty block, T, box(T,U), U) at two instants inside the
 		// window, and the restart, one level deeper than "lin": what the replay cache holds after it was
@@ -538,12 +591,12 @@ func (w *world) heldNames() []string {
 
 func run(hist []string) core.Outcome {
 	if len(hist) == 0 {
-		return core.Outcome{Key: "root", Enabled: []string{"fork", "lin", "miner", "rst"}}
+		return core.Outcome{Key: "root", Enabled: []string{"fork", "lin", "miner", "ms", "msm", "rst"}}
 	}
 	w := newWorld(hist[0])
 	defer w.close()
 	scenTag = "by-validator"
-	if hist[0] == "miner" {
+	if hist[0] == "miner" || hist[0] == "msm" {
 		scenTag = "mined-by-the-node-itself"
 	}
 	evs := hist[1:]
@@ -628,14 +681,14 @@ func (w *world) parentOfOrGenesis(b *types.Block) *types.Block {
 	return w.parentOf(b)
 }
 
-var depth = map[string]int{"lin": 3, "fork": 3, "miner": 4, "rst": 4}
+var depth = map[string]int{"lin": 3, "fork": 3, "miner": 4, "rst": 4, "ms": 3, "msm": 4}
 
 func main() {
 	core.ParseFlags()
 	node.Quiet()
 	txs = mkTxs()
 	if core.Thorough() {
-		depth = map[string]int{"lin": 4, "fork": 4, "miner": 5, "rst": 6}
+		depth = map[string]int{"lin": 4, "fork": 4, "miner": 5, "rst": 6, "ms": 4, "msm": 5}
 	} else {
 		// quick: without the instant 59 s before the last second of the window (bucket edge inside the window)
 		instants = []int{-1, 0, 1799, 1800, 1801, 1861}
